@@ -142,6 +142,15 @@ Definition obs_match (o : obs) (outs : list out) : bool :=
   && mset_eqb breq_eqb o.(o_breqs) (breqs_of outs)
   && mset_eqb mcuev_eqb o.(o_mcu) (mcu_of outs).
 
+(* A housekeeping tick closes every session that is due; the server walks a map, so the order in which
+   independent sessions are closed - and with it the order of the resulting notices on a connection - is
+   not determined. For ticks the messages of a connection are compared as a multiset. *)
+Definition obs_match_unordered (o : obs) (outs : list out) : bool :=
+  forallb (fun c => mset_eqb smsg_eqb (impl_msgs_for c o) (msgs_for c outs)) (map fst o.(o_recv) ++ conns_of outs)
+  && mset_eqb N.eqb o.(o_closed) (closed_of outs)
+  && mset_eqb breq_eqb o.(o_breqs) (breqs_of outs)
+  && mset_eqb mcuev_eqb o.(o_mcu) (mcu_of outs).
+
 (* ---- digest of the model state ---- *)
 Definition pending_len (l : list smsg) : N := N.of_nat (length (filter compared l)).
 Definition pubs_mask (l : list (N * N)) : N := fold_left (fun acc e => N.lor acc (N.shiftl 1 (fst e))) l 0.
@@ -237,7 +246,7 @@ Fixpoint first_diff (mode : N) (i : N) (h : hub) (tr : trace) : option (N * N) :
   | [] => None
   | (o, ob, dg) :: r =>
       let '(h', outs) := sem_step mode h o in
-      if negb (obs_match ob outs) then Some (i, 1)
+      if negb (match o with OTick _ => obs_match_unordered ob outs | _ => obs_match ob outs end) then Some (i, 1)
       else if negb (digest_match dg (digest_of h')) then Some (i, 100 + digest_diff dg (digest_of h'))
       else first_diff mode (i + 1) h' r
   end.
